@@ -126,6 +126,15 @@ def run_case(case):
                 want[tuple(node)] = want.get(tuple(node), Fraction(0)) + Fraction(b["w"])
             if nw != want:
                 oracle.append("a cast ballot's weight is not on its node")
+            # the same weights as the graph's own node attributes carry them (`weight`, `cast`)
+            g = getattr(bg, "graph", None)
+            if g is not None:
+                gw = {k: Fraction(d.get("weight", 0)) for k, d in g.nodes(data=True) if d.get("weight", 0) != 0}
+                if gw != want:
+                    oracle.append("the graph's node attribute `weight` does not carry exactly the cast ballots' weights")
+                gc = {k for k, d in g.nodes(data=True) if d.get("cast")}
+                if gc != set(want):
+                    oracle.append("the graph's node attribute `cast` does not mark exactly the cast ballots' nodes")
         model.append({"op": 83, "arg": [vk.jp_val(nm, jp, cands=list(prof.candidates)), True], "expect": expect,
                       "what": "BallotGraph(profile).node_weights (non-zero entries)"})
         return {"model": model, "oracle": oracle, "tags": tags, "nontrivial": True}
